@@ -147,6 +147,19 @@ def run(payload):
                 dev = float(np.max(np.abs(got - want)) / (1 + np.max(np.abs(want))))
                 if dev > 1e-9:
                     fails.append({"id": f"{kind}.laplace_with_bc_on_shifted_grid", "grid": repr(g), "first_grid": repr(ga), "rel_deviation": dev})
+    if payload.get("shifted_grids"):
+        # integer-valued input: the operator acts as its stencil on ALL inputs (the result is not truncated to integers)
+        from pde import CartesianGrid as _CG, ScalarField as _SF
+        gi = _CG([[0, 16]], 8, periodic=True)
+        vals = np.round(10 * np.sin(2 * np.pi * gi.axes_coords[0] / 16)).astype(int)
+        cases += 1
+        try:
+            got = np.asarray(_SF(gi, vals, dtype=int).gradient("periodic").data[0], dtype=float)
+            want = (np.roll(vals, -1) - np.roll(vals, 1)) / (2 * gi.discretization[0])
+            if not np.allclose(got, want, atol=1e-12):
+                fails.append({"id": "operator_result_of_an_integer_field_truncated", "grid": repr(gi), "data": vals.tolist(), "got": got.tolist(), "want": want.tolist()})
+        except Exception as e:
+            fails.append({"id": "integer_field_error", "error": f"{type(e).__name__}: {e}"})
     return {"ok": True, "cases": cases, "failures": fails}
 
 
